@@ -62,7 +62,9 @@ static const char *const OP_NAMES[] = {
     "format double needing >= 64 chars",   "format strings",              "format {c}",                "hex_encode",
     "hex_decode",                          "base64_encode",               "base64_decode",             "string_stream append/<</to_string",
     "utf8_to_utf16 malformed (substitute)", "utf16_to_utf8 malformed (substitute)", "ostringstream << string", "before/after on local string",
-    "starts_with/ends_with/contains",      "char_buffer compare/copy",    "format_latin_1",            "istringstream >> string"};
+    "starts_with/ends_with/contains",      "char_buffer compare/copy",    "format_latin_1",            "istringstream >> string",
+    "literal operators _st/_stbuf/_stfmt (per-thread literals)", "failing decodes and conversions: exception text (per-thread inputs)",
+    "failing format calls: exception text", "wide streams: wostringstream << / wistringstream >> / writef"};
 
 extern "C" int c20_num_ops() { return (int)(sizeof OP_NAMES / sizeof *OP_NAMES); }
 extern "C" const char *c20_op_name(int op) { return OP_NAMES[op]; }
@@ -217,6 +219,104 @@ extern "C" void c20_run_op(int op, int salt, const C20Shared *sh, char *out, siz
         ST::string t;
         is >> t;
         d.s(t);
+        break;
+    }
+    case 36: {
+        // each thread evaluates its own literals (a per-literal cache shared between threads would mix them up)
+        using namespace ST::literals;
+        if (salt == 0) {
+            d.s("thread-zero: plain literal, long enough for the heap"_st);
+            d.s(u"thread-zero: \u00e4lpha-\u00e4lpha utf-16"_st);
+            d.s(U"thread-zero: \u20ac utf-32 literal text"_st);
+            d.s(L"thread-zero: wide literal text \u00e9"_st);
+            d.s(u8"thread-zero: utf-8 literal \u00e9\u00e9\u00e9"_st);
+            d.b("thread-zero: buffer literal, heap sized"_stbuf);
+            d.b(u"thread-zero: utf-16 buffer literal"_stbuf);
+            d.s("zero:{}|{>6}|{x}"_stfmt(1, "a", 255));
+        } else if (salt == 1) {
+            d.s("thread-one:: plain literal, long enough for the heap"_st);
+            d.s(u"thread-one:: \u00dfeta--\u00dfeta- utf-16"_st);
+            d.s(U"thread-one:: \u20ad utf-32 literal text"_st);
+            d.s(L"thread-one:: wide literal text \u00e8"_st);
+            d.s(u8"thread-one:: utf-8 literal \u00e8\u00e8\u00e8"_st);
+            d.b("thread-one:: buffer literal, heap sized"_stbuf);
+            d.b(u"thread-one:: utf-16 buffer literal"_stbuf);
+            d.s("one::{}|{>6}|{x}"_stfmt(2, "b", 254));
+        } else {
+            d.s("thread-two:: plain literal, long enough for the heap"_st);
+            d.s(u"thread-two:: gamma--gamma- utf-16 \u00e7"_st);
+            d.s(U"thread-two:: \u20ae utf-32 literal text"_st);
+            d.s(L"thread-two:: wide literal text \u00ea"_st);
+            d.s(u8"thread-two:: utf-8 literal \u00ea\u00ea\u00ea"_st);
+            d.b("thread-two:: buffer literal, heap sized"_stbuf);
+            d.b(u"thread-two:: utf-16 buffer literal"_stbuf);
+            d.s("two::{}|{>6}|{x}"_stfmt(3, "c", 253));
+        }
+        break;
+    }
+    case 37: {
+        // error paths: the text of the exception belongs to the failing call alone
+        auto what = [&](auto &&f) {
+            try {
+                f();
+                d.raw("no-throw|", 9);
+            } catch (const std::exception &e) {
+                d.raw(e.what(), strlen(e.what()));
+                d.raw("|", 1);
+            }
+        };
+        static const char *const B64BAD[3] = {"QUJDREVGR0hJSktMTU5PU", "QUJDREVGR0hJSktMTU5PUFFSU1RVVldYWVowMTI", "QUJDR"};
+        static const char *const HEXBAD[3] = {"00112233445566778899aabbccddeeffg0", "zz", "0011223344556677889"};
+        static const char *const U8BAD[3] = {"valid prefix long enough \xC3", "\xFF", "abc\xE2\x82"};
+        what([&] { (void)ST::base64_decode(ST::string::from_validated(B64BAD[salt], strlen(B64BAD[salt]))); });
+        what([&] { (void)ST::hex_decode(ST::string::from_validated(HEXBAD[salt], strlen(HEXBAD[salt]))); });
+        what([&] { (void)ST::string::from_utf8(U8BAD[salt], ST_AUTO_SIZE, ST::check_validity); });
+        what([&] {
+            char16_t bad[3] = {(char16_t)(0x41 + salt), 0xD800, 0};
+            (void)ST::string::from_utf16(bad, 2, ST::check_validity);
+        });
+        what([&] {
+            char32_t bad[2] = {(char32_t)(0x110000 + salt), 0};
+            (void)ST::utf32_to_utf8(bad, 1, ST::check_validity);
+        });
+        what([&] { (void)ST::string::from_validated("a\xE2\x82\xAC", 4).to_latin_1(false); });
+        char small[4];
+        d.num(ST::base64_decode(ST::string::from_validated(B64BAD[salt], strlen(B64BAD[salt])), small, sizeof small));
+        d.num(ST::hex_decode(sh->s_hex, small, sizeof small));
+        break;
+    }
+    case 38: {
+        auto what = [&](auto &&f) {
+            try {
+                f();
+                d.raw("no-throw|", 9);
+            } catch (const std::exception &e) {
+                d.raw(e.what(), strlen(e.what()));
+                d.raw("|", 1);
+            }
+        };
+        what([&] { (void)ST::format(salt ? "{}{" : "{", 1); });
+        what([&] { (void)ST::format(salt == 2 ? "{&4}" : "{}{}", 1 + salt); });
+        what([&] { (void)ST::format("{z}", salt); });
+        what([&] { (void)ST::format((const char *)nullptr); });
+        what([&] { (void)ST::format("{.1}", salt ? "\xC3\xA9" : "\xE2\x82\xAC"); });
+        what([&] { (void)ST::string::from_double(1.5 + salt, 'q'); });
+        break;
+    }
+    case 39: {
+        std::wostringstream wo;
+        wo << L << S;
+        ST::writef(wo, "{}|{>8}|{}", salt, "p\xC3\xA9", 1.5 * (salt + 1));
+        std::wstring w = wo.str();
+        d.raw(w.data(), w.size() * sizeof(wchar_t));
+        std::wistringstream wi(std::wstring(L"w\u00eft-token") + (wchar_t)(L'0' + salt) + L" rest");
+        ST::string t;
+        wi >> t;
+        d.s(t);
+        std::ostringstream os;
+        ST::writef(os, "{x}|{}", 255 + salt, L);
+        std::string r = os.str();
+        d.raw(r.data(), r.size());
         break;
     }
     }
